@@ -1259,7 +1259,20 @@ pub fn gen_c05_case(r: &mut Rng) -> String {
     let mut attrs: Vec<(u8, u8, Vec<u8>)> = Vec::new();
     if announces || r.chance(1, 3) {
         attrs.push((0x40, 1, vec![r.below(3) as u8]));
-        let p = if two { as2_path(r) } else { as_path_bin(r) };
+        // RFC 7606 7.2: no empty segments in a valid path
+        let mut p = Vec::new();
+        for _ in 0..r.below(3) {
+            let c = 1 + r.below(3) as usize;
+            p.push(*r.pick(&[2u8, 2, 1, 3, 4]));
+            p.push(c as u8);
+            for _ in 0..c {
+                if two {
+                    p.extend_from_slice(&r.pick(&[1u16, 65001, 23456, 65535]).to_be_bytes());
+                } else {
+                    p.extend_from_slice(&r.pick(&ASNS).to_be_bytes());
+                }
+            }
+        }
         attrs.push((0x40, 2, p));
     }
     if legacy_nlri {
